@@ -923,6 +923,40 @@ def check_stability(ctx, g, keep):
     del same, what
 
 
+def run_same_named_functions(ctx, g):
+    """Statements differing in exactly one operator leaf: a stock function vs a user-defined function class of the same
+    NAME (another class, another module).  Different structure - never equal, never one mapping key."""
+    import pickle
+
+    from forml.io.dsl import function
+
+    from vlib import c08_userfn
+
+    tables = g.catalog()
+    a, c = tables['A'], tables['C']
+    for stock, own, argument in ((function.Count, c08_userfn.Count, a.x), (function.Abs, c08_userfn.Abs, a.z),
+                                 (function.Year, c08_userfn.Year, c.d), (function.Max, c08_userfn.Max, a.y)):
+        for level, wrap in (('feature', lambda f: f), ('aliased', lambda f: f.alias('v')),
+                            ('nested', lambda f: function.Cast(f, tables['A'].x.kind).alias('v')),
+                            ('statement', lambda f, t=argument.origin: t.select(f.alias('v')))):
+            ctx.count('evaluations')
+            ctx.count('same_named_function_pairs')
+            left, right = wrap(stock(argument)), wrap(own(argument))
+            ctx.shape(('same-named-function', stock.__name__, level))
+            witness = {'same_named_function': [stock.__name__, level]}
+            try:
+                facts = {'eq': bool(left == right), 'hash': hash(left) == hash(right), 'set': len({left, right}) == 1,
+                         'dict': {left: 1}.get(right) == 1,
+                         'pickled-eq': bool(pickle.loads(pickle.dumps(left)) == right)}
+            except Exception as err:  # pylint: disable=broad-except
+                ctx.violation('same-named-function-compare-raises', f'{stock.__name__} ({level}): {err!r}', witness)
+                continue
+            wrong = sorted(k for k, v in facts.items() if v)
+            if wrong:
+                ctx.violation('same-named-function-classes-confused', f'forml {stock.__name__} vs a user class of the same name '
+                              f'({level}): {wrong} hold although the operator class differs', witness)
+
+
 def run(ctx):
     from forml.io import dsl
 
@@ -957,6 +991,7 @@ def run(ctx):
     if ctx.shard == 0:
         run_kinds(ctx, g, dsl)
         run_directed(ctx, g, sql, keep)
+        run_same_named_functions(ctx, g)
     check_stability(ctx, g, keep)
     run_cross(ctx, g, dsl, cross)
     ctx.note_max('objects_built_before_stability', ctx.counters.get('objects_built', 0))
@@ -968,6 +1003,9 @@ def replay(ctx, witness):
     from vlib import dslgen as g
 
     sql = Sql(g)
+    if 'same_named_function' in witness:
+        run_same_named_functions(ctx, g)
+        return
     if 'kinds' in witness or 'fields' in witness:
         run_kinds(ctx, g, dsl)
         return
